@@ -313,8 +313,19 @@ def atomic_resolve_obligation(run, A: Analysis):
     body = f.node.body
     last = body[-1]
     self_writes = [w for w in f.writes.values() if w.root == "self"]
-    ok = (len(self_writes) == 1 and self_writes[0].lineno == last.lineno and isinstance(last, ast.Expr)
-          and ast.unparse(last).startswith("self._params.update("))
+    # writes may only happen in the trailing straight-line statements (after the resolving loop);
+    # the last one is the update of _params, anything before it only touches private bookkeeping
+    tail_lines = set()
+    for s in reversed(body):
+        if isinstance(s, (ast.Assign, ast.Expr)):
+            for n in ast.walk(s):
+                if hasattr(n, "lineno"):
+                    tail_lines.add(n.lineno)
+        else:
+            break
+    ok = (bool(self_writes) and all(w.lineno in tail_lines for w in self_writes)
+          and isinstance(last, ast.Expr) and ast.unparse(last).startswith("self._params.update(")
+          and all(w.path in ("._params.update()", "._original_params") for w in self_writes))
     if ok:
         run.discharged(oname, "frames", "provenance-analysis", 0.0, function=fid)
     else:
@@ -327,7 +338,8 @@ def atomic_resolve_obligation(run, A: Analysis):
 def rng_obligations(run, A: Analysis):
     """No function reachable from the public API writes process-global random state
     (observe_at: random.getstate())."""
-    reach = {r: A.reachable([r]) for r in API_ROOTS if r in A.funcs}
+    roots = list(API_ROOTS) + [f.id for f in step_functions(A)] + ["piquasso/api/state.py:State.__init__"]
+    reach = {r: A.reachable([r]) for r in roots if r in A.funcs}
     writers = [(f, e) for f in A.funcs.values() for e in f.rng if e["mode"] == "write"]
     seen = set()
     for f, e in writers:
